@@ -193,6 +193,8 @@ func runC13(c *Check) {
 	ruleLockset(c, p, distinct, reach)
 	c.Doc("C13-R6", "VP+EO: contexts handed to other layers derive from the worker's context parameter.")
 	ruleContextProvenance(c, p, distinct, depth)
+	c.Doc("C13-R7", "EO (pairing): every mutex acquisition in the node's packages and the sequencing layer is released on every path to a return (a leaked lock parks the loops that share it in Lock(), which no stop request can interrupt).")
+	ruleLockPairing(c, "C13-R7", []*Prog{p, c.Mod(ModSingle)})
 }
 
 // blockingOp classifies node n. kind == "" if it is not a blocking operation.
@@ -808,4 +810,67 @@ func ruleContextProvenance(c *Check, p *Prog, roots []workerRoot, depth int) {
 	if n < 10 {
 		c.Unk(rule, "external-calls", "", "", fmt.Sprintf("anchor lost: %d context-taking calls into other layers found under the worker roots", n))
 	}
+}
+
+// ruleLockPairing: for every non-deferred Lock/RLock in the repository's own packages, every
+// path from it to a return of the function passes the matching Unlock/RUnlock of the same mutex
+// (a deferred unlock runs at the function's exit and counts).
+func ruleLockPairing(c *Check, rule string, progs []*Prog) {
+	n := 0
+	for _, p := range progs {
+		for _, fn := range p.Funcs {
+			pk := fnPkg(fn)
+			if pk == nil || !strings.HasPrefix(pk.Pkg.Path(), rootPath) || fn.Blocks == nil {
+				continue
+			}
+			if strings.Contains(pk.Pkg.Path(), "/test/") || strings.Contains(pk.Pkg.Path(), "/mocks") {
+				continue
+			}
+			hasLock := false
+			for _, b := range fn.Blocks {
+				for _, in := range b.Instrs {
+					if call, ok := in.(*ssa.Call); ok {
+						switch commonName(call.Common()) {
+						case "(*sync.Mutex).Lock", "(*sync.RWMutex).Lock", "(*sync.RWMutex).RLock":
+							hasLock = true
+						}
+					}
+				}
+			}
+			if !hasLock {
+				continue
+			}
+			g := BuildECFG(p, fn, ExpandOpts{MaxDepth: 0})
+			c.NoteGraph(g)
+			for _, ln := range g.Select(func(x *Node) bool {
+				if _, deferred := x.In.(deferredCall); deferred {
+					return false
+				}
+				switch CallName(x) {
+				case "(*sync.Mutex).Lock", "(*sync.RWMutex).Lock", "(*sync.RWMutex).RLock":
+					return true
+				}
+				return false
+			}) {
+				n++
+				mu := RecvTerm(ln)
+				want := map[string]string{"(*sync.Mutex).Lock": "(*sync.Mutex).Unlock", "(*sync.RWMutex).Lock": "(*sync.RWMutex).Unlock", "(*sync.RWMutex).RLock": "(*sync.RWMutex).RUnlock"}[CallName(ln)]
+				isUnlock := func(x *Node) bool {
+					if CallName(x) != want {
+						return false
+					}
+					r := RecvTerm(x)
+					return r != nil && mu != nil && r.String() == mu.String()
+				}
+				inst := fnShort(fn) + " ⟂ " + trunc(mu.String(), 40) + " released on every exit"
+				c.Decide(rule, inst, fnName(fn), p.InstrPos(ln.In), "every path from the acquisition to a return releases the mutex",
+					"a return is reachable with the mutex still held: every later Lock() on it blocks forever, and a goroutine parked in Lock() cannot be stopped through its context", g,
+					g.PathAvoiding([]*Node{ln}, g.AnyExit(), isUnlock))
+			}
+		}
+	}
+	if n == 0 {
+		c.Unk(rule, "lock-sites", "", "", "anchor lost: no mutex acquisition found")
+	}
+	c.MinInstances(rule, 8)
 }
